@@ -144,6 +144,9 @@ class Env:
             r = ValueWrapper(bool(t["v"]))
         elif k == "arr":
             r = P.Array(*[int(x["n"]) for x in t["items"]])
+        elif k == "arrn":
+            vs = [int(x["n"]) for x in t["items"]]
+            r = P.Array(vs[0], None, *vs[1:])
         elif k == "bin":
             l, rr = self.term(t["l"]), self.term(t["r"])
             r = {"=": operator.eq, "<>": operator.ne, "<": operator.lt, ">": operator.gt, "+": operator.add, "-": operator.sub,
